@@ -1315,14 +1315,14 @@ fn poison(s: &mut DefaultSolver<f64>, val: f64) {
 }
 
 /// The poisoning that matches the characterisation proved on the whole-solver model
-/// (`C05.full_solve_reads_only` / `full_solve_stale_field` / `full_solve_idempotent_finite`):
-/// of the mutable state, `solve()` may read ONLY `0·workx` (`solve_constant_rhs`) and `Px·0`
-/// (`residuals.update`, `symv` with b = 0).  Those two buffers get finite garbage WITH A
-/// POSITIVE SIGN (so that `0·garbage = +0`, the same zero a freshly built solver has there);
-/// every other mutable component — iterate, step vectors, `prev_vars`, all other residual fields
-/// incl. `rx_inf`/`rz_inf`, the six other KKT work vectors, the whole `info` block incl. `prev_*`,
-/// the cone scalings, the `solution` object — gets `dead` (NaN, ±inf, huge: anything).
-fn poison_exact(s: &mut DefaultSolver<f64>, dead: f64, live: f64) {
+/// (`C05.full_solve_reads_only` / `full_solve_stale` / `full_solve_idempotent_finite`): since /repo
+/// 1706c1f `solve()` reads NOTHING of the mutable state any more (before, it read `0·workx` in
+/// `solve_constant_rhs` and `Px·0` in `residuals.update`: KF-C03-resolve-after-nan).  EVERY mutable
+/// component — iterate, step vectors, `prev_vars`, all residual fields incl. `Px`, `rx_inf`, `rz_inf`,
+/// all seven KKT work vectors incl. `workx`, the whole `info` block incl. `prev_*`, the cone scalings,
+/// the `solution` object — gets `dead` (NaN, ±inf, huge: anything).  `live` is kept for a second
+/// flavour with finite garbage in `workx` / `Px` (and as the seed of the cone-scaling poison).
+fn poison_exact(s: &mut DefaultSolver<f64>, dead: f64, live: f64, live_buffers_dead: bool) {
     assert!(live.is_finite() && live.is_sign_positive());
     for v in [&mut s.variables, &mut s.step_lhs, &mut s.step_rhs, &mut s.prev_vars] {
         v.x.fill(dead);
@@ -1332,8 +1332,11 @@ fn poison_exact(s: &mut DefaultSolver<f64>, dead: f64, live: f64) {
         v.κ = dead;
     }
     step::residuals::fill(&mut s.residuals, dead);
-    step::residuals::fill_px(&mut s.residuals, live);
-    clarabel::solver::implementations::default::verif_hooks_kktsystem_c05::fill_work_vectors_split(&mut s.kktsystem, live, dead);
+    if !live_buffers_dead {
+        step::residuals::fill_px(&mut s.residuals, live);
+    }
+    clarabel::solver::implementations::default::verif_hooks_kktsystem_c05::fill_work_vectors_split(
+        &mut s.kktsystem, if live_buffers_dead { dead } else { live }, dead);
     // the whole info block
     s.info.μ = dead;
     s.info.sigma = dead;
@@ -1406,14 +1409,22 @@ fn run_meta_repeat(r: &Req) -> String {
                 .replace(' ', "_");
         }
     }
-    // the characterisation of the model theorems, exactly: anything in the dead components,
-    // positive finite garbage in the two `0·stale` buffers
-    for (dead, live) in [(f64::NAN, 3.25e7), (f64::NEG_INFINITY, 1.0e-300), (-1.0e300, 0.0), (f64::INFINITY, 7.5)] {
-        poison_exact(&mut s, dead, live);
+    // the characterisation of the model theorems, exactly: anything in EVERY mutable component
+    // (workx and Px included since /repo 1706c1f — this is what catches a reversal of that fix);
+    // the rounds with `false` keep positive finite garbage in workx / Px (the pre-fix characterisation)
+    for (dead, live, all) in [
+        (f64::NAN, 3.25e7, true),
+        (f64::NEG_INFINITY, 1.0e-300, true),
+        (-1.0e300, 0.0, true),
+        (f64::INFINITY, 7.5, true),
+        (f64::NAN, 3.25e7, false),
+        (f64::NEG_INFINITY, 7.5, false),
+    ] {
+        poison_exact(&mut s, dead, live, all);
         s.solve();
         let c = harvest(&s);
         if a.bits() != c.bits() {
-            return format!("FAIL solve-after-exact-poison(dead:{},live:{})-differs status {:?}/{:?} iters {}/{}", dead, live, a.status, c.status, a.iters, c.iters)
+            return format!("FAIL solve-after-exact-poison(dead:{},live:{},workx-and-Px-dead:{})-differs status {:?}/{:?} iters {}/{}", dead, live, all, a.status, c.status, a.iters, c.iters)
                 .replace(' ', "_");
         }
     }
@@ -1669,8 +1680,9 @@ fn generate(s: &mut Session) {
                 the next solve() on the same object (meta.repeat therefore poisons the KKT work vectors and \
                 residuals.Px with finite garbage and everything else with NaN; its second poisoning round is exactly \
                 the relation `Stale` of C05.full_solve_reads_only: NaN / inf / huge values in EVERY other mutable \
-                component incl. x1,z1,x2,z2,workz,work_conic, rx_inf, the info block with prev_*, the solution object, \
-                and finite garbage with a positive sign bit in workx and Px)".into());
+                component incl. x1,z1,x2,z2,workz,work_conic, rx_inf, the info block with prev_*, the solution object; \
+                since /repo 1706c1f (symv fills with zero for b = 0, workx = -q by scalarop_from) workx and Px are \
+                dead too and get NaN/inf as well)".into());
     }
     gen_step_cases(s);
     if s.is_searching() {
